@@ -161,6 +161,33 @@ def render(t, texts: List[str], pos: List[int]) -> str:
     return f"({render(t[1], texts, pos)} ? {render(t[2], texts, pos)} : {render(t[3], texts, pos)})"
 
 
+def render_min(t, texts: List[str], pos: List[int], parent: str = "") -> str:
+    """The same tree with only the parentheses the grammar needs: chains of one operator (a || b || c), && under ||, ! applied directly - the spellings in
+    which a transpiler or evaluator could treat a chain as one construct. Leaves keep their own parentheses."""
+    if t[0] == "leaf":
+        i = pos[0]
+        pos[0] += 1
+        return f"({texts[i]})"
+    if t[0] == "not":
+        inner = render_min(t[1], texts, pos, "not")
+        return f"!{inner}" if t[1][0] in ("leaf", "not") else f"!({inner})"
+    if t[0] in ("and", "or"):
+        op = " && " if t[0] == "and" else " || "
+        left = render_min(t[1], texts, pos, t[0])
+        right = render_min(t[2], texts, pos, t[0])
+        if t[1][0] == "cond" or (t[0] == "and" and t[1][0] == "or"):
+            left = f"({left})"
+        if t[2][0] in ("cond", t[0]) or (t[0] == "and" and t[2][0] == "or") or (t[0] == "or" and t[2][0] == "or"):
+            right = f"({right})"  # right-nested same operator keeps its grouping
+        return left + op + right
+    c, x, y = (render_min(t[1], texts, pos, "cond"), render_min(t[2], texts, pos, "cond"), render_min(t[3], texts, pos, "cond"))
+    if t[1][0] == "cond":
+        c = f"({c})"
+    if t[2][0] == "cond":
+        x = f"({x})"
+    return f"{c} ? {x} : {y}"
+
+
 def n_value_canon(text: str) -> Any:
     return {"1": ("int", 1), "'s'": ("string", "s"), "[]": ("list", ()), "null": ("null",), "1.5": ("double", outcome.dbl(1.5)), "{}": ("map", ())}[text]
 
@@ -218,6 +245,16 @@ def check_tree(run: common.Run, t, leaves: List[str], rr: int, report) -> None:
     for k in ekinds:
         if k:
             run.event("E:" + k)
+    src_min = render_min(t, texts, [0])
+    if len(_ops(t)) >= 2:  # (with fewer operators the two spellings differ in an outer pair of parentheses only)
+        run.event("minimal-parentheses-spelling")
+        for r in ("I", "C"):
+            run.tick()
+            got = observe(src_min, r)
+            if not matches(exp, got, texts):
+                g = got if isinstance(got, str) else (got[0] if got[0] != "V" else "value")
+                report(f"{r}-minimal-parentheses-[{''.join(sorted(set(_ops(t))))}]-expected-{exp if isinstance(exp, str) else 'N'}-got-{g}",
+                       {"src": src_min, "tree": repr(t), "leaves": leaves, "rr": rr, "route": r}, f"{src_min}: expected {exp} got {got} (fully parenthesised: {src})")
     for r in ("I", "C"):
         got = observe(src, r)
         if not matches(exp, got, texts):
